@@ -245,6 +245,30 @@ func Minimise(p *Program, still func(*Program) bool, budget int) (*Program, int)
 			}
 		}
 	}
+	// byte-string operands (literals, documents, coefficients): shorter is
+	// easier to read; delete chunks, then single bytes, while it still fails
+	for ei := range cur.Epochs {
+		for ti := range cur.Epochs[ei].Tasks {
+			for oi := range cur.Epochs[ei].Tasks[ti].Ops {
+				for bi := range cur.Epochs[ei].Tasks[ti].Ops[oi].B {
+					for chunk := 64; chunk >= 1; chunk /= 4 {
+						for pos := 0; ; {
+							raw := unhex(cur.Epochs[ei].Tasks[ti].Ops[oi].B[bi])
+							if pos+chunk > len(raw) || len(raw) <= 1 || tries >= budget {
+								break
+							}
+							cand := append(append([]byte{}, raw[:pos]...), raw[pos+chunk:]...)
+							c := cur.Clone()
+							c.Epochs[ei].Tasks[ti].Ops[oi].B[bi] = hx(cand)
+							if !try(c) {
+								pos += chunk
+							}
+						}
+					}
+				}
+			}
+		}
+	}
 	return cur, tries
 }
 
